@@ -66,6 +66,19 @@ def _convertible(t, env) -> bool:
     return False
 
 
+def _first_element_term(t, env):
+    """annotation of element 0 of a sequence-like annotation (None when the annotation is not sequence-like)"""
+    t, env = _expand(t, env)
+    k = t["t"]
+    if k == "optional":
+        return _first_element_term(t["of"], env)
+    if k in ("seq", "tuple_var"):
+        return t["of"], env
+    if k == "tuple_fixed":
+        return t["items"][0], env
+    return None, env
+
+
 def freeze(x, depth=0):
     if depth > 12:
         return ("deep",)
@@ -185,8 +198,7 @@ def run_case(case) -> Outcome:
             target = obj
             if op.get("nested") and isinstance(obj, (list, tuple, collections.deque)) and obj:
                 inner = obj[0]
-                te, ee = _expand(t, env)
-                it = te.get("of") or (te.get("items") or [None])[0]
+                it, ee = _first_element_term(t, env)
                 if it is not None and _convertible(it, ee):
                     target = inner
             if _mutate(target, op["how"]):
